@@ -248,6 +248,23 @@ def run(ctx, eng):
                'a module-level table is changed at run time', node=nd)
     ctx.ob('PURE.shared', 'h2', 'module tables are constant after import',
            not written, 'no function writes a module-level container')
+    # process-wide memo caches: what a call returns then depends on what
+    # other connections of the same process asked before (keys that compare
+    # equal are conflated: a tuple and a tuple subclass, b'x' decoded under
+    # two encodings, ...)
+    memo = []
+    for q, fi in sorted(m.funcs.items()):
+        for d in fi.decorators:
+            if d.split('.')[-1] in ('lru_cache', 'cache', 'cached_property',
+                                    'memoize', 'memoized'):
+                memo.append((q, d, fi.node))
+    for q, d, nd in memo:
+        ctx.ob('PURE.shared', q, 'memoised with %s' % d.split('.')[-1],
+               False, 'the result cache of %s is shared by every connection '
+               'of the process and outlives them: output depends on the '
+               'process history' % q, node=nd)
+    ctx.ob('PURE.shared', 'h2', 'no process-wide memo cache', not memo,
+           'decorators of all functions examined')
     ctx.assume('hyperframe and hpack are deterministic')
 
 
